@@ -28,6 +28,7 @@ import (
 	"reduction.dev/reduction/proto/jobpb"
 	"reduction.dev/reduction/proto/snapshotpb"
 	"reduction.dev/reduction/proto/workerpb"
+	"reduction.dev/reduction/rpc"
 	"reduction.dev/reduction/util/verifhook"
 	"reduction.dev/reduction/workers/operator"
 	"reduction.dev/reduction/workers/sourcerunner"
@@ -807,20 +808,23 @@ func (c *opClient) HandleEventBatch(ctx context.Context, b []*workerpb.Event) (e
 		c.w.mu.Lock()
 		c.w.Delivered[c.node.Id] = append(c.w.Delivered[c.node.Id], d)
 		c.w.mu.Unlock()
-		for {
-			err := t.Op.HandleEvent(ctx, c.sender, e)
-			if err == nil {
-				break
-			}
-			// rpc.HTTPClient retries a 503 (connect's Unavailable: the operator is still
-			// loading) until the caller gives up or the peer is gone
-			if connect.CodeOf(err) != connect.CodeUnavailable || !t.alive.Load() || !c.senderAlive() || ctx.Err() != nil {
-				return err
-			}
-			time.Sleep(100 * time.Microsecond)
-		}
 	}
-	return nil
+	// The batch goes through the engine's own in-process adapter (what the connect
+	// handler does with a request as well), not through a loop of the harness.
+	ec := rpc.NewOperatorEmbeddedClient(rpc.NewOperatorEmbeddedClientParams{Operator: t.Op, SenderID: c.sender, Host: c.node.Host, ID: c.node.Id})
+	for {
+		err := ec.HandleEventBatch(ctx, b)
+		if err == nil {
+			return nil
+		}
+		// rpc.HTTPClient retries a 503 (connect's Unavailable: the operator is still
+		// loading, which it says at the first event of a batch) until the caller
+		// gives up or the peer is gone
+		if connect.CodeOf(err) != connect.CodeUnavailable || !t.alive.Load() || !c.senderAlive() || ctx.Err() != nil {
+			return err
+		}
+		time.Sleep(100 * time.Microsecond)
+	}
 }
 func (c *opClient) Deploy(ctx context.Context, r *workerpb.DeployOperatorRequest) (err error) {
 	if c.stale() {
